@@ -270,7 +270,8 @@ class HTTPHeaders(collections.abc.MutableMapping[str, str]):
             else:
                 if _FORBIDDEN_HEADER_CHARS_RE.search(new_part):
                     raise HTTPInputError("Invalid header value %r" % new_part)
-            self._as_list[self._last_key][-1] += new_part
+            values = self._as_list[self._last_key]
+            values[-1] = (values[-1] + new_part).strip(HTTP_WHITESPACE)
             self._combined_cache.pop(self._last_key, None)
         else:
             try:
